@@ -204,6 +204,11 @@ pub fn contexts() -> Vec<Ctx> {
         ("(?:X)?+a", Box::new(move |x| Concat(vec![Repeat(b(x), 0, Some(1), Mode::Poss), la()]))),
         ("(?!(?>X)b)a?", Box::new(move |x| Concat(vec![Look(b(Concat(vec![Atomic(b(x)), lb()])), false, true), Repeat(b(la()), 0, Some(1), Mode::Greedy)]))),
         ("\\bX(?=b)", Box::new(move |x| Concat(vec![Assert(A::WordB), x, Look(b(lb()), false, false)]))),
+        // look-arounds with capturing branches: which branch was committed is visible afterwards
+        ("(?<=(a)|(X))\\2", Box::new(move |x| Concat(vec![Look(b(Alt(vec![Node::group(la()), Node::group(x)])), true, false), Backref(2)]))),
+        ("(?=(a)|(X))\\2", Box::new(move |x| Concat(vec![Look(b(Alt(vec![Node::group(la()), Node::group(x)])), false, false), Backref(2)]))),
+        ("(?<=(X)|(.))(?(2)b|a)", Box::new(move |x| Concat(vec![Look(b(Alt(vec![Node::group(x), Node::group(Any(false))])), true, false), CondGroup(2, b(lb()), b(la()))]))),
+        ("(?>(a)|(X))\\2?b", Box::new(move |x| Concat(vec![Atomic(b(Alt(vec![Node::group(la()), Node::group(x)]))), Repeat(b(Backref(2)), 0, Some(1), Mode::Greedy), lb()]))),
     ];
     v.shrink_to_fit();
     v
